@@ -53,6 +53,9 @@ def schedules(rnd, n, calls):
         ('exists <digit> d in start: (= d "7")', EX("<digit>", "d", SMT(A("=", V("d"), S("7"))))),            # unsatisfiable
         ('(< (str.len start) 7)', SMT(A("<", A("str.len", V("start")), I(7)))),                               # finitely many solutions
         (None, {"op": "true"}),
+        # unsatisfiable SMT atom together with an unsatisfiable existential (both unsat checks fire on the same state)
+        ('forall <digit> d in start: ((= d "zz") and exists <var> v in start: (= v "q"))',
+         FA("<digit>", "d", AND(SMT(A("=", V("d"), S("zz"))), EX("<var>", "v", SMT(A("=", V("v"), S("q"))))))),
     ]
     grid = []
     for at, ns in (("call", [1, 2, 3, 4]), ("pop", [1, 2, 3, 5, 8, 13]), ("probe", [1, 2, 3])):
@@ -109,7 +112,7 @@ def sweep(rnd, n, calls):
         if len(out) >= n:
             break
     for name, fs in (("ASSGN2", [FA("<var>", "a", EX("<var>", "b", PRED(p, "a", "b"))) for p in
-                                 ("before", "after", "inside", "direct_child", "same_position", "different_position", "consecutive")]
+                                 ("before", "after", "inside", "direct_child", "same_position", "different_position")]
                       + [FA("<assgn>", "a", FA("<var>", "b", PRED("nth", 1, "b", "a"), inn="a")),
                          FA("<var>", "a", FA("<var>", "b", PRED("level", ("s", "GE"), ("s", "<assgn>"), "a", "b"))),
                          COUNT("start", "<assgn>", 2), F.EXI("n", AND(COUNT("start", "<var>", "n"), SMT(A(">", A("str.to.int", V("n")), I(2)))))]),):
